@@ -371,6 +371,21 @@ func (e editor) list(from *Selection, to *Selection, m *meta.List, new bool, str
 		if err = e.enter(fromChild, toChild, newItem, strategy, false, false); err != nil {
 			return err
 		}
+		// a when on the list is about the item as it is now written, one that does not hold
+		// means the item should not be there
+		if _, visible, whenErr := to.Constraints.CheckListPostConstraints(toRequest, toChild, key); whenErr != nil {
+			return whenErr
+		} else if !visible {
+			if newItem {
+				deleteRequest := toRequest
+				deleteRequest.New = false
+				deleteRequest.Delete = true
+				if _, _, delErr := to.Node.Next(deleteRequest); delErr != nil {
+					return delErr
+				}
+			}
+			return fmt.Errorf("%w. when of list %s does not hold for item %v", fc.BadRequestError, to.Path, key)
+		}
 
 		releaseToChild()
 		releaseFromChild()
